@@ -108,18 +108,23 @@ def fetchFromMSA (abc : Option AbcType) (m : Msa) (which : Int) : Option Sq × S
 
 /-! ## the common prologue: "we need to load a new alignment?" -/
 
-/-- `if (ascii->msa == NULL || ascii->idx >= ascii->msa->nseq) { esl_msa_Destroy; status = esl_msafile_Read(afp, &msa); … idx = 0 }` -/
-def needMsa (h : MsaH) : MsaH × Status :=
-  let need := match h.msa with
-    | none => true
-    | some m => h.idx ≥ (m.nseq : Int)
-  if !need then (h, .ok) else
+/-- `ascii->msa == NULL || ascii->idx >= ascii->msa->nseq` -/
+def needsLoad (h : MsaH) : Bool :=
+  match h.msa with
+  | none => true
+  | some m => h.idx ≥ (m.nseq : Int)
+
+/-- `esl_msa_Destroy(ascii->msa); status = esl_msafile_Read(ascii->afp, &(ascii->msa)); … ascii->idx = 0` -/
+def loadMsa (h : MsaH) : MsaH × Status :=
   match h.o.read h.lines with
   | (.ok m, rest) => ({ h with msa := some m, lines := rest, idx := 0 }, .ok)
   | (.eof, rest) => ({ h with msa := none, lines := rest }, .eof)
   | (.eformat _, rest) => ({ h with msa := none, lines := rest, haveErr := true }, .eformat)
   | (.fault, rest) => ({ h with msa := none, lines := rest }, .fault)
   | (.exc, rest) => ({ h with msa := none, lines := rest, exc := true }, .einconceivable)
+
+/-- `if (ascii->msa == NULL || ascii->idx >= ascii->msa->nseq) { … }` -/
+def needMsa (h : MsaH) : MsaH × Status := if needsLoad h then loadMsa h else (h, .ok)
 
 /-- prologue + `esl_sq_FetchFromMSA(ascii->msa, ascii->idx, &tmpsq)` -/
 def nextRow (h : MsaH) : MsaH × Option Sq × Status :=
@@ -193,6 +198,25 @@ def revCoordsOld (n0 start0 end0 L C W : Int) : Int × Int × Int × Int × Int 
   let n := en - st + 1
   (c, st, en, n, n - c)
 
+/-- "Copy the sequence frag", reverse complement when `W < 0`, "Copy annotation": the tail of the alignment branch once the
+    coordinates `(C, start, end, n, W)` of a non-empty window are known -/
+def windowCopy (h : MsaH) (sq t : Sq) (W : Int) (c st en n w : Int) : MsaH × Sq × Status :=
+  -- memcpy(sq->seq, tmpsq->seq + start - 1, n) / memcpy(sq->dsq + 1, tmpsq->dsq + start, n): inside tmpsq's residue array
+  if n < 0 || st < 1 || st + n > (t.n : Int) + 2 then (h, sq, .fault) else
+  let sq := sq.growTo n.toNat
+  let frag := t.seq.extract (st.toNat - 1) (st.toNat - 1 + n.toNat)
+  -- a slice reaching the terminator (only from inconsistent caller state) copies it as a residue
+  let frag := if frag.size < n.toNat then frag ++ (Array.range (n.toNat - frag.size)).map (fun _ => if t.digital then (255 : UInt8) else 0) else frag
+  let sq := { sq with seq := frag, start := st, end_ := en, C := c, W := w }
+  let (sq, stR, excR) := if W < 0 then revcomp sq else (sq, Status.ok, false)
+  if stR == .fault then (h, sq, .fault) else
+  if stR != .ok then ({ h with haveErr := true, exc := h.exc || excR }, sq, .einval) else
+  ({ h with exc := h.exc || excR },
+   { sq with name := t.name, source := t.name, acc := t.acc, desc := t.desc,
+             nalloc := if t.name.size ≥ sq.nalloc then t.name.size + 1 else sq.nalloc,
+             dalloc := if t.desc.size ≥ sq.dalloc then t.desc.size + 1 else sq.dalloc,
+             roff := -1, doff := -1, eoff := -1, hoff := -1 }, .ok)
+
 def readWindowWith (rev : Int → Int → Int → Int → Int → Int → Int × Int × Int × Int × Int)
     (h : MsaH) (sq : Sq) (C W : Int) : MsaH × Sq × Status :=
   -- special: initialising a revcomp window read backs idx up one
@@ -203,25 +227,11 @@ def readWindowWith (rev : Int → Int → Int → Int → Int → Int → Int ×
   | some t =>
     if sq.digital != t.digital then (h, sq, .fault) else
     if !(W > 0) && sq.L == -1 then ({ h with exc := true }, sq, .esyntax) else
-    let (c, st, en, n, w) := if W > 0 then fwdCoords sq.n sq.end_ t.L C W else rev sq.n sq.start sq.end_ t.L C W
-    if w == 0 then
+    -- (the reverse branch starts from the caller's sq->L)
+    let r := if W > 0 then fwdCoords sq.n sq.end_ t.L C W else rev sq.n sq.start sq.end_ sq.L C W
+    if r.2.2.2.2 == 0 then
       ({ h with idx := h.idx + 1 }, { sq with seq := #[], start := 0, end_ := 0, C := 0, W := 0, L := t.L }, .eod)
-    else
-      -- memcpy(sq->seq, tmpsq->seq + start - 1, n) / memcpy(sq->dsq + 1, tmpsq->dsq + start, n): inside tmpsq's residue array
-      if n < 0 || st < 1 || st + n > (t.n : Int) + 2 then (h, sq, .fault) else
-      let sq := sq.growTo n.toNat
-      let frag := t.seq.extract (st.toNat - 1) (st.toNat - 1 + n.toNat)
-      -- a slice reaching the terminator (only from inconsistent caller state) copies it as a residue
-      let frag := if frag.size < n.toNat then frag ++ (Array.range (n.toNat - frag.size)).map (fun _ => if t.digital then (255 : UInt8) else 0) else frag
-      let sq := { sq with seq := frag, start := st, end_ := en, C := c, W := w }
-      let (sq, stR, excR) := if W < 0 then revcomp sq else (sq, Status.ok, false)
-      if stR == .fault then (h, sq, .fault) else
-      if stR != .ok then ({ h with haveErr := true, exc := h.exc || excR }, sq, .einval) else
-      ({ h with exc := h.exc || excR },
-       { sq with name := t.name, source := t.name, acc := t.acc, desc := t.desc,
-                 nalloc := if t.name.size ≥ sq.nalloc then t.name.size + 1 else sq.nalloc,
-                 dalloc := if t.desc.size ≥ sq.dalloc then t.desc.size + 1 else sq.dalloc,
-                 roff := -1, doff := -1, eoff := -1, hoff := -1 }, .ok)
+    else windowCopy h sq t W r.1 r.2.1 r.2.2.1 r.2.2.2.1 r.2.2.2.2
 
 /-- the working tree's `sqascii_ReadWindow` on an alignment file (46b16f4) -/
 def readWindow (h : MsaH) (sq : Sq) (C W : Int) : MsaH × Sq × Status := readWindowWith revCoords h sq C W
